@@ -964,7 +964,10 @@ class Abstraction:
                 continue
             msgs = [{'uid': m['uid'] or 0, 'c': self.cid(m['body'].encode('latin-1')),
                      'fl': imap_flags(m['fl'])} for m in b['msgs']]
-            box = {'f': b['f'], 'v': self.vidx(b['v']), 'next': b.get('uidnext') or 0,
+            # UIDNEXT as told by STATUS (the FIRST thing asked of the restarted server) and by
+            # EXAMINE: both must lie above every UID, so the lower of the two is judged
+            nexts = [x for x in (b.get('uidnext'), (b.get('status') or {}).get('UIDNEXT')) if x]
+            box = {'f': b['f'], 'v': self.vidx(b['v']), 'next': min(nexts) if nexts else 0,
                    'msgs': msgs, 'probe': []}
             if b.get('probe'):
                 box['probe'] = [{'v': self.vidx(b['probe']['v']), 'uid': b['probe']['uid']}]
@@ -1225,3 +1228,421 @@ def stale_lock_probe(job_base: dict) -> dict:
             'after_ageing_failed_commands': [f"{c['cmd']} {c['f']}" for c in served2['cmds']
                                              if not c['ok']],
             'expiry_s': LOCK_EXPIRY}
+
+
+# =======================================================================================
+# C14, maildir half (harness/checks/c14.py): ONE command under test, killed before every
+# filesystem operation of THAT command.  Everything below was added for C14; nothing above
+# is changed and C15 does not use it.
+#
+# A history (JSON-able):
+#   {'seed':   [[folder, [flags]], ...]   message i (1-based) = message_body(i, nonce)
+#    'select': folder the session under test has selected,
+#    'other':  None | ['Store', cid, flag] | ['Append', folder, [flags]]   a SECOND session's
+#              complete command, after the first session's SELECT (its message is cid 8),
+#    'cut':    the command under test
+#              ['Move'|'Copy', uid?, form, [cids], destination]   form: list | range | star | none
+#              ['Append', destination, n, [flags]]                 its messages are cids 11..
+#              ['Expunge'] | ['UidExpunge', form, [cids]] | ['Close'] | ['Raw', text]
+#    'readonly': the session EXAMINEs instead of SELECTing (optional)}
+# The store is seeded ONCE per history (child_seed, no tracer); every crash run starts from a
+# copy of the seeded directory, replays the prelude (LOGIN, SELECT, the other session's
+# command) with the tracer off, then counts filesystem operations from 0 while the command
+# under test runs.  kill_at = 'pre' stops before the command is sent: the restart dump of
+# that directory is the state the command started from.
+
+OTHER_CID = 8
+APPEND_CID0 = 11
+FOLDERS14 = ('INBOX', 'Box')
+
+
+def compact_set(nums: list) -> str:
+    return ','.join(str(n) for n in nums)
+
+
+def expand_set(s: str) -> list:
+    """'1:3,7' -> [1, 2, 3, 7] (the sets of a COPYUID code: no '*')"""
+    out = []
+    for part in s.split(','):
+        if ':' in part:
+            a, b = part.split(':', 1)
+            a, b = int(a), int(b)
+            out += list(range(min(a, b), max(a, b) + 1))
+        elif part:
+            out.append(int(part))
+    return out
+
+
+def cut_cids(hist: dict) -> list:
+    """content ids the command under test names (moved / copied / appended / expunged by UID)"""
+    cut = hist['cut']
+    if cut[0] in ('Move', 'Copy'):
+        return list(cut[3])
+    if cut[0] == 'Append':
+        return [APPEND_CID0 + i for i in range(cut[2])]
+    if cut[0] == 'UidExpunge':
+        return list(cut[2])
+    return []
+
+
+def cut_line(hist: dict, loc: dict, nonce: str) -> bytes:
+    """the command under test as IMAP text.  loc: cid -> [folder, uid] from the seeding
+    session's APPENDUIDs; sequence numbers are positions in the selected folder as the
+    session's SELECT saw it (the seeded messages, in UID order)."""
+    cut = hist['cut']
+    sel = hist['select']
+    view = sorted(u for _c, (f, u) in loc.items() if f == sel)
+
+    def addr(um, form, cids):
+        uids = sorted(loc[c][1] for c in cids)
+        nums = uids if um else [view.index(u) + 1 for u in uids]
+        if form == 'star':
+            return '1:*'
+        if form == 'none':
+            return '97' if um else '%d' % (len(view) + 4)
+        if form == 'range':
+            return f'{min(nums)}:{max(nums)}'
+        return compact_set(nums)
+    op = cut[0]
+    if op in ('Move', 'Copy'):
+        _, um, form, cids, dst = cut
+        return b'%s%s %s %s' % (b'UID ' if um else b'', op.upper().encode(),
+                                addr(um, form, cids).encode(), _astring(dst))
+    if op == 'Append':
+        _, dst, n, flags = cut
+        out = b'APPEND ' + _astring(dst)
+        for i in range(n):
+            body = message_body(APPEND_CID0 + i, nonce)
+            fl = (b' (' + ' '.join(flags).encode() + b')') if flags else b''
+            out += fl + b' {%d+}\r\n' % len(body) + body
+        return out
+    if op == 'Expunge':
+        return b'EXPUNGE'
+    if op == 'UidExpunge':
+        return b'UID EXPUNGE ' + addr(True, cut[1], cut[2]).encode()
+    if op == 'Close':
+        return b'CLOSE'
+    if op == 'Raw':
+        return cut[1].encode()
+    raise ValueError(cut)
+
+
+def child_seed(cfg: Cfg, run_dir: str, tmp_dir: str, hist: dict, out_path: str,
+               nonce: str) -> None:
+    """seeding session on a provisioned store: CREATE Box, one APPEND per seed message;
+    writes {cid: [folder, uid]}.  Never returns."""
+    code = 0
+    loc: dict = {}
+    try:
+        signal.alarm(60)
+        _set_tmp(tmp_dir)
+        w = World('maildir', users={USER: PASSWORD}, layout=cfg.layout, maildir_dir=run_dir,
+                  config_kw={'_provision': False})
+        d = Driver(w, 's')
+        d.cmd(b'LOGIN %s %s' % (USER.encode(), PASSWORD.encode()))
+        d.cmd(b'CREATE Box')
+        for i, (f, flags) in enumerate(hist['seed'], 1):
+            body = message_body(i, nonce)
+            cond, resps, _raw = d.cmd(b'APPEND %s (%s) {%d+}\r\n%s' % (
+                _astring(f), ' '.join(flags).encode(), len(body), body))
+            c_ = _resp_code(resps, 'APPENDUID')
+            if cond != 'OK' or not c_:
+                raise RuntimeError(f'seeding APPEND {i} answered {cond}')
+            loc[i] = [f, int(c_[1])]
+        d.cmd(b'LOGOUT')
+    except BaseException:
+        code = 3
+        loc = {'harness_exc': traceback.format_exc()[-1500:]}
+    try:
+        with open(out_path, 'w') as fp:
+            json.dump(loc, fp)
+    except Exception:
+        code = 3
+    os._exit(code)
+
+
+def child_cut(cfg: Cfg, run_dir: str, tmp_dir: str, hist: dict, loc: dict, kill_at,
+              log_path: str, nonce: str) -> None:
+    """prelude (tracer off), then the command under test with the tracer counting from 0;
+    kill_at: None (run to the end) | 'pre' (stop before the command is sent) | k.
+    Never returns."""
+    code = 0
+    fd = -1
+    try:
+        signal.alarm(60)
+        _set_tmp(tmp_dir)
+        fd = os.open(log_path, os.O_WRONLY | os.O_CREAT | os.O_APPEND, 0o600)
+        tr = Tracer(fd, kill_at if isinstance(kill_at, int) else None,
+                    os.path.join(run_dir, USER), tmp_dir)
+        tr.install()
+        w = World('maildir', users={USER: PASSWORD}, layout=cfg.layout, maildir_dir=run_dir,
+                  config_kw={'_provision': False})
+        login = b'LOGIN %s %s' % (USER.encode(), PASSWORD.encode())
+        a = Driver(w, 'a', fd)
+        sel_cmd = b'EXAMINE ' if hist.get('readonly') else b'SELECT '
+        for line in (login, sel_cmd + _astring(hist['select'])):
+            cond, _r, _raw = a.cmd(line, {'ab': ['Prelude']})
+            if cond != 'OK':
+                raise RuntimeError(f'prelude {line[:20]!r} answered {cond}')
+        other = hist.get('other')
+        if other:
+            b = Driver(w, 'b', fd)
+            lines = [login]
+            if other[0] == 'Store':
+                f, uid = loc[other[1]]
+                lines += [b'SELECT ' + _astring(f),
+                          b'UID STORE %d +FLAGS (%s)' % (uid, other[2].encode())]
+            elif other[0] == 'Append':
+                body = message_body(OTHER_CID, nonce)
+                lines += [b'APPEND %s (%s) {%d+}\r\n%s' % (
+                    _astring(other[1]), ' '.join(other[2]).encode(), len(body), body)]
+            else:
+                raise ValueError(other)
+            for line in lines:
+                cond, _r, _raw = b.cmd(line, {'ab': ['Prelude']})
+                if cond != 'OK':
+                    raise RuntimeError(f'other session {line[:20]!r} answered {cond}')
+        if kill_at != 'pre':
+            line = cut_line(hist, loc, nonce)
+            tr.n = 0
+            tr.on = True
+            a.cmd(line, {'ab': ['Cut'], 'cut': True})
+            tr.on = False
+        os.write(fd, b'{"k": "end"}\n')
+    except SystemExit:
+        raise
+    except BaseException:
+        code = 3
+        try:
+            os.write(fd, (json.dumps({'k': 'harness-exc', 'tb': traceback.format_exc()[-1500:]})
+                          + '\n').encode())
+        except Exception:
+            pass
+    os._exit(code)
+
+
+def child_dump_boxes(cfg: Cfg, run_dir: str, tmp_dir: str, out_path: str) -> None:
+    """the restarted server, read only: LIST, per mailbox EXAMINE + UID FETCH 1:* (UID FLAGS
+    BODY.PEEK[]).  Never returns."""
+    code = 0
+    out: dict = {'folders': None, 'boxes': [], 'failed': []}
+    try:
+        signal.alarm(60)
+        _set_tmp(tmp_dir)
+        w = World('maildir', users={USER: PASSWORD}, layout=cfg.layout, maildir_dir=run_dir,
+                  config_kw={'_provision': False})
+        n = 0
+        d = Driver(w, 'r')
+        login = b'LOGIN %s %s' % (USER.encode(), PASSWORD.encode())
+
+        def cmd(line):
+            nonlocal d, n
+            if d.dead or d.c.done:
+                n += 1
+                d = Driver(w, 'r%d' % n)
+                d.cmd(login)
+            cond, resps, raw = d.cmd(line)
+            if cond != 'OK':
+                out['failed'].append({'cmd': line[:40].decode('latin-1'), 'cond': cond,
+                                      'raw': raw[-160:].decode('latin-1')})
+            return cond, resps
+        cmd(login)
+        cond, resps = cmd(b'LIST "" *')
+        if cond == 'OK':
+            out['folders'] = [_list_name(r) for r in resps
+                              if r.kind == 'untagged' and r.name == b'LIST'
+                              and not any(_val(x).lower() == b'\\noselect' for x in r.data[0])]
+        for f in (out['folders'] if out['folders'] is not None else list(FOLDERS14)):
+            box = {'f': f, 'ok': False, 'msgs': []}
+            out['boxes'].append(box)
+            cond, resps = cmd(b'EXAMINE ' + _astring(f))
+            if cond != 'OK':
+                continue
+            cond, resps = cmd(b'UID FETCH 1:* (UID FLAGS BODY.PEEK[])')
+            if cond != 'OK':
+                continue
+            box['ok'] = True
+            box['msgs'] = [_fetch_items(r) for r in resps
+                           if r.kind == 'untagged' and r.name == b'FETCH']
+    except BaseException:
+        code = 3
+        out['harness_exc'] = traceback.format_exc()[-1500:]
+    try:
+        with open(out_path, 'w') as fp:
+            json.dump(out, fp)
+    except Exception:
+        code = 3
+    os._exit(code)
+
+
+def boxes_event(kind: str, dump: dict, contents: dict) -> dict:
+    """dump -> event: per mailbox the messages as (uid, content id, flags without \\Recent);
+    content id 0 = blank, 999 = something the harness never sent"""
+    boxes = []
+    for b in dump['boxes']:
+        msgs = []
+        for m in b['msgs']:
+            n = norm_content(m['body'].encode('latin-1'))
+            c = contents.get(n, 0 if n.strip() == b'' else 999)
+            msgs.append({'uid': m['uid'] or 0, 'c': c, 'fl': imap_flags(m['fl'])})
+        boxes.append({'f': b['f'], 'ok': bool(b['ok']), 'msgs': msgs})
+    return {'e': kind, 'listed': dump.get('folders') is not None, 'boxes': boxes}
+
+
+def ack_event(cmd: dict | None) -> dict:
+    """how the command under test was answered, from the output stream logged write by write
+    BEFORE each write reached the connection: a tagged response on record was produced before
+    the kill"""
+    ev = {'e': 'ack', 'cond': 'NONE', 'code': '', 'pairs': []}
+    if cmd is None:
+        return ev
+    cond, resps = tagged(cmd)
+    if cond is None:
+        if any(_is_bye(r) for r in resps):
+            ev['cond'] = 'BYE'
+        return ev
+    ev['cond'] = cond
+    tag = cmd['sent']['tag'].encode()
+    for r in resps:
+        if r.kind == 'tagged' and r.tag == tag and _code(r):
+            ev['code'] = _code(r)[0]
+    cu = _resp_code(resps, 'COPYUID')
+    if cu and len(cu) >= 3:
+        src, dst = expand_set(cu[1]), expand_set(cu[2])
+        if len(src) == len(dst):
+            ev['pairs'] = [[s, d] for s, d in zip(src, dst)]
+    return ev
+
+
+_DELIVER = ('link(tmp/msg->new/msg)', 'link(tmp/msg->cur/msg)')
+
+
+def run_job14(job: dict) -> dict:
+    """executed in a pool worker.  job: {cfg: (layout, store_root, tmp), hist, hid, nonce,
+    template (provisioned store, INBOX opened once), points: None (all) | int (sample size),
+    pseed}.  One trace per run: [pre, cmd, ack, kill, post]."""
+    import random as _random
+    layout, store_root, tmp_root = job['cfg']
+    cfg = Cfg(layout, 'same', store_root, tmp_root)
+    hist = job['hist']
+    nonce = job['nonce']
+    warm()
+    work = tempfile.mkdtemp(prefix='verif.c14.job.', dir=store_root)
+    res = {'hid': job['hid'], 'cfg': layout, 'traces': [], 'L': 0, 'machinery': [],
+           'clean_ops': [], 'aged_runs': 0, 'prefix_mismatch': 0, 'wall': 0.0, 'sampled': False}
+    t_job = time.time()
+    try:
+        contents = {norm_content(message_body(i, nonce)): i for i in range(1, 20)}
+        seeded = os.path.join(work, 'seeded')
+        copy_template(job['template'], seeded)
+        loc_path = os.path.join(work, 'loc')
+        st = fork_call(child_seed, cfg, seeded, tmp_root, hist, loc_path, nonce)
+        with open(loc_path) as fp:
+            loc = json.load(fp)
+        if st != 0 or 'harness_exc' in loc:
+            res['machinery'].append(f'seeding of history {job["hid"]} failed ({st}): '
+                                    + str(loc.get('harness_exc'))[:600])
+            return res
+        loc = {int(c): v for c, v in loc.items()}
+        rd = os.path.join(work, 'r')
+        user_dir = os.path.realpath(os.path.join(rd, USER))
+        tmp_real = os.path.realpath(tmp_root)
+        temps: set = set()
+
+        def label(op):
+            return op_label(op, user_dir, tmp_real, layout, temps)[0]
+
+        def one(k):
+            """-> (dump | None, cut command record | None, [labels of its operations])"""
+            shutil.rmtree(rd, ignore_errors=True)
+            copy_template(seeded, rd)
+            log_path = os.path.join(work, 'log')
+            dump_path = os.path.join(work, 'dump')
+            for p in (log_path, dump_path):
+                try:
+                    os.unlink(p)
+                except FileNotFoundError:
+                    pass
+            st = fork_call(child_cut, cfg, rd, tmp_root, hist, loc, k, log_path, nonce)
+            log = read_log(log_path)
+            for rec in log:
+                if rec.get('k') == 'temp':
+                    temps.add(rec['p'])
+                    temps.add(os.path.realpath(rec['p']))
+            want = (137,) if isinstance(k, int) else (0,)
+            if st not in want and not (isinstance(k, int) and st == 0):
+                res['machinery'].append(f'run k={k} of history {job["hid"]} ({layout}) exited {st}: '
+                                        + str([r for r in log if r.get('k') == 'harness-exc'])[:600])
+                return None, None, []
+            aged = age_locks(rd)
+            if aged:
+                res['aged_runs'] += 1
+            st2 = fork_call(child_dump_boxes, cfg, rd, tmp_root, dump_path)
+            try:
+                with open(dump_path) as fp:
+                    dump = json.load(fp)
+            except Exception:
+                dump = None
+            if dump is None or st2 != 0 or dump.get('harness_exc'):
+                res['machinery'].append(f'dump after k={k} of history {job["hid"]} exited {st2}: '
+                                        + str((dump or {}).get('harness_exc'))[:600])
+                return None, None, []
+            cmds = split_commands(log)
+            cut = next((c for c in cmds if c['sent'].get('cut')), None)
+            labels = [label(o) for o in (cut['ops'] if cut else [])]
+            dump['aged'] = len(aged)
+            return dump, cut, labels
+
+        pre_dump, _c, _l = one('pre')
+        if pre_dump is None:
+            return res
+        if not pre_dump['boxes'] or not all(b['ok'] for b in pre_dump['boxes']):
+            res['machinery'].append(f'history {job["hid"]}: the state before the command could not '
+                                    f'be dumped: {pre_dump.get("failed")}')
+            return res
+        pre = boxes_event('pre', pre_dump, contents)
+        cut = hist['cut']
+        sel = hist['select']
+        dst = cut[4] if cut[0] in ('Move', 'Copy') else cut[1] if cut[0] == 'Append' else sel
+        cmd_ev = {'e': 'cmd', 'op': {'UidExpunge': 'uidexpunge'}.get(cut[0], cut[0].lower()),
+                  'src': sel, 'dst': dst, 'cids': cut_cids(hist),
+                  'n': cut[2] if cut[0] == 'Append' else len(cut_cids(hist))}
+
+        def trace(k, dump, cutrec, labels, L):
+            killed = isinstance(k, int) and bool(labels) and len(labels) == k + 1
+            done = labels[:-1] if killed else labels
+            kill = {'e': 'kill', 'k': k if killed else -1, 'L': L,
+                    'before': labels[-1] if killed else 'end',
+                    'after': (done[-1] if done else 'start'),
+                    'delivered': sum(1 for x in done if x in _DELIVER)}
+            post = boxes_event('post', dump, contents)
+            post['aged'] = dump.get('aged', 0)
+            return {'k': kill['k'], 'events': [pre, cmd_ev, ack_event(cutrec), kill, post],
+                    'failed': dump.get('failed', [])[:4]}
+
+        dump, cutrec, labels = one(None)
+        if dump is None:
+            return res
+        L = len(labels)
+        res['L'] = L
+        res['clean_ops'] = labels
+        res['line'] = cut_line(hist, loc, nonce)[:80].decode('latin-1')
+        res['traces'].append(trace(None, dump, cutrec, labels, L))
+        ks = list(range(L))
+        n = job.get('points')
+        if n is not None and len(ks) > n:
+            ks = sorted(_random.Random(job.get('pseed', 0)).sample(ks, n))
+            res['sampled'] = True
+        for k in ks:
+            dump, cutrec, klabels = one(k)
+            if dump is None:
+                continue
+            if klabels != labels[:k + 1]:
+                res['prefix_mismatch'] += 1
+            res['traces'].append(trace(k, dump, cutrec, klabels, L))
+    except Exception:
+        res['machinery'].append('job failed: ' + traceback.format_exc()[-1200:])
+    finally:
+        shutil.rmtree(work, ignore_errors=True)
+        res['wall'] = round(time.time() - t_job, 2)
+    return res
